@@ -841,9 +841,9 @@ func c12QueueScenario(r *Run, rng *Rng, big bool) {
 			}
 		}
 	}
-	// canonical answer: per queue "ids[*]" joined by | ; then the global event log
+	// canonical answer: per queue "queued ids[*]/started ids/completed ids"
 	var qstr []string
-	for _, q := range qs {
+	for i, q := range qs {
 		ids := q.VerifCommandIDs()
 		nums := make([]string, len(ids))
 		for j, id := range ids {
@@ -853,9 +853,20 @@ func c12QueueScenario(r *Run, rng *Rng, big bool) {
 		if q.IsRunning {
 			s += "*"
 		}
-		qstr = append(qstr, s)
+		var st, dn []string
+		for _, e := range events {
+			if strings.HasPrefix(e[1:], strconv.Itoa(i)+".") {
+				num := e[strings.IndexByte(e, '.')+1:]
+				if e[0] == 's' {
+					st = append(st, num)
+				} else {
+					dn = append(dn, num)
+				}
+			}
+		}
+		qstr = append(qstr, s+"/"+strings.Join(st, ",")+"/"+strings.Join(dn, ","))
 	}
-	r.Case(line(), strings.Join(qstr, "|")+" ; "+strings.Join(events, " "))
+	r.Case(line(), strings.Join(qstr, " | "))
 	r.Count(fmt.Sprintf("queues.n%d", nq))
 	// oracles (independent of the model): per queue, starts and completions are in submission order,
 	// alternate strictly (one at a time), and remaining = submitted minus completed
